@@ -537,7 +537,9 @@ C02_THEOREMS = [P + t for t in ("range_check", "slice_eq_inRange", "find_informa
                                 "clientLoop_complete", "findInformation_view", "readByType_view", "readByGroupType_view",
                                 "find_information_enumerate_all", "find_information_enumerate_uniform",
                                 "read_by_type_enumerate_all", "read_by_type_enumerate_uniform",
-                                "read_by_group_enumerate_all", "read_by_group_complete", "groupCut_prefix")] + \
+                                "read_by_group_enumerate_all", "read_by_group_complete", "groupCut_prefix",
+                                # bridge: Db.SvcWF derived for the table of every declaration (DeclBridge.lean)
+                                "ofDecl_SvcWF", "length_table", "read_by_group_enumerate_all_decl")] + \
                [H + t for t in ("handles_strict_mono", "handles_nonzero", "first_index_count")]
 C02_WITNESSES = [P + t for t in ("find_information_skips_witness", "read_by_type_unreadable_witness", "read_by_type_128bit_witness",
                                  "t128_never_matches", "read_by_type_skips_witness",
@@ -553,9 +555,13 @@ C03_THEOREMS = [P + t for t in ("read_by_group_only_primary", "find_by_type_valu
                                 "find_by_type_value_complete", "find_by_type_value_complete_bytes", "find_by_type_value_enumerate_all",
                                 "serviceRanges_spec", "find_by_type_value_ranges_sorted", "find_by_type_value_other_type",
                                 "find_by_type_value_other_length", "findLoop_out", "findByTypeValue_view", "candF_eq_candG",
-                                "groupEndIndex_of_lastIndex", "findByTypeValue_prefixResponder", "clientLoop_complete")]
+                                "groupEndIndex_of_lastIndex", "findByTypeValue_prefixResponder", "clientLoop_complete",
+                                # the same over every server declaration (DeclBridge.lean): Db.SvcWF (ofDecl d) derived
+                                "ofDecl_SvcWF", "length_table", "render_readable", "read_by_group_complete_decl",
+                                "find_by_type_value_complete_decl", "primaries_sorted_decl",
+                                "read_by_group_enumerate_all_decl", "find_by_type_value_enumerate_all_decl")]
 IMPORTS = ["BluetoeModel.AttDiscovery.Props", "BluetoeModel.AttDiscovery.PropsEnum", "BluetoeModel.AttDiscovery.PropsGroup",
-           "BluetoeModel.AttDiscovery.PropsFind",
+           "BluetoeModel.AttDiscovery.PropsFind", "BluetoeModel.AttDiscovery.DeclBridge",
            "BluetoeModel.AttHandles.Props"]
 
 PROPS = {
@@ -577,7 +583,7 @@ PROPS = {
         run=lambda ctx, replay_path=None: run(ctx, "C03"),
         level="proof",
         technique="Lean 4 loop-invariant proof over every table and service list (every reported group is a declared service whose declaration attribute has type «Primary Service», in range, with its real last handle) + differential correspondence with the real handlers",
-        level_text="For the fixed handlers (fixes/attdisc-01, -02): every group in a Read By Group Type «Primary Service» response and every range in a Find By Type Value «Primary Service» response is, for every table, service list, range and MTU, a declared service whose declaration attribute has type 0x2800 (never a secondary service), lies in the requested range, carries the service's UUID / the requested UUID and ends at the handle of the service's last attribute (soundness). Completeness, Read By Group Type: for every table whose service list partitions it (Db.SvcWF), the response is exactly groupCut(MTU-2) of the declared primary services whose first handle is in range - a non-empty prefix ending only at a service UUID of the other size or when the MTU is used up, nothing skipped - and Attribute Not Found iff there is none (read_by_group_complete, groupCut_prefix, groupCut_head); the Discover All Primary Services loop returns every primary service in range exactly once, in order (read_by_group_enumerate_all). Completeness, Find By Type Value: for every such table, range, 2- or 16-byte value and MTU >= 23 the response is exactly the first (MTU-1)/4 of the declared primary services whose declaration value equals the requested value octet-wise and whose first handle is in range (serviceRanges; found handle = first handle, group end handle = handle of the service's last attribute) - a prefix cut only by the MTU, nothing skipped - and Attribute Not Found iff there is none (find_by_type_value_complete, _complete_bytes for the response bytes, serviceRanges_spec); the Discover Primary Service by Service UUID loop returns every matching primary service in range exactly once, in order (find_by_type_value_enumerate_all); the full statements hold, no input class had to be excluded (another attribute type / value length: Error Response, find_by_type_value_other_type / _other_length). Partial: the client's byte parser is not modelled; Db.SvcWF is not derived for ofDecl d; declarations whose last handle is 0xFFFF are outside the model: known findings C03:last-handle-0xffff:*.",
+        level_text="For the fixed handlers (fixes/attdisc-01, -02): every group in a Read By Group Type «Primary Service» response and every range in a Find By Type Value «Primary Service» response is, for every table, service list, range and MTU, a declared service whose declaration attribute has type 0x2800 (never a secondary service), lies in the requested range, carries the service's UUID / the requested UUID and ends at the handle of the service's last attribute (soundness). Completeness, Read By Group Type: for every table whose service list partitions it (Db.SvcWF), the response is exactly groupCut(MTU-2) of the declared primary services whose first handle is in range - a non-empty prefix ending only at a service UUID of the other size or when the MTU is used up, nothing skipped - and Attribute Not Found iff there is none (read_by_group_complete, groupCut_prefix, groupCut_head); the Discover All Primary Services loop returns every primary service in range exactly once, in order (read_by_group_enumerate_all). Completeness, Find By Type Value: for every such table, range, 2- or 16-byte value and MTU >= 23 the response is exactly the first (MTU-1)/4 of the declared primary services whose declaration value equals the requested value octet-wise and whose first handle is in range (serviceRanges; found handle = first handle, group end handle = handle of the service's last attribute) - a prefix cut only by the MTU, nothing skipped - and Attribute Not Found iff there is none (find_by_type_value_complete, _complete_bytes for the response bytes, serviceRanges_spec); the Discover Primary Service by Service UUID loop returns every matching primary service in range exactly once, in order (find_by_type_value_enumerate_all); the full statements hold, no input class had to be excluded (another attribute type / value length: Error Response, find_by_type_value_other_type / _other_length). Bridge to declarations: Db.SvcWF (ofDecl d) is derived for every server declaration d (ofDecl_SvcWF: number_of_attributes >= 1 per service, the per-service counts sum to the table length, every attribute rendered with type 0x2800 is readable) under the single decidable hypothesis NoFakePrimary d (no characteristic declared with value type 0x2800 AND an unreadable value - a declaration the library does not forbid, exFake), so the completeness and enumeration theorems hold for every declared server without include_service<> (read_by_group_complete_decl, find_by_type_value_complete_decl, *_enumerate_all_decl). Partial: the client's byte parser is not modelled; declarations whose last handle is 0xFFFF are outside the model: known findings C03:last-handle-0xffff:*.",
         level_note="Trusted: Lean kernel + standard axioms; model = code as far as the differential check samples it; the secondary_service<> struct form does not compile inside a server, only service<…, is_secondary_service> is in the family.",
         design_ref="§5 C03",
         assumptions=["fixes/attdisc-01-end-handle-in-gap and -02-secondary-services applied (the check reports a VIOLATION on the unpatched tree)"],
